@@ -62,6 +62,60 @@ result = {'chains_checked': count, 'violates': bad is not None, 'counterexample'
 """
 
 
+TOKEN_EMBED = {'_R_EXPR_BINARY_OP': 'aa%sbb', '_R_EXPR_UNARY_OP': '%saa', '_R_EXPR_FUNCTION_SEPARATOR': 'foo(aa%sbb)',
+               '_R_EXPR_FUNCTION_CLOSE': 'foo(aa%s', '_R_EXPR_GROUP_OPEN': '%saa)', '_R_EXPR_GROUP_CLOSE': '(aa%s'}
+
+
+def token_language_obligations(pr, m):
+    import z3
+    from pyvc.relang import to_re, SPACE, Untranslatable
+    ws = z3.Star(SPACE)
+
+    def lit(t):
+        return z3.Re(t)
+    spec = {'_R_EXPR_BINARY_OP': z3.Concat(ws, z3.Union(*[lit(o) for o in OPS])),
+            '_R_EXPR_UNARY_OP': z3.Concat(ws, z3.Union(lit('!'), lit('-'))),
+            '_R_EXPR_FUNCTION_SEPARATOR': z3.Concat(ws, lit(',')),
+            '_R_EXPR_FUNCTION_CLOSE': z3.Concat(ws, lit(')')),
+            '_R_EXPR_GROUP_OPEN': z3.Concat(ws, lit('(')),
+            '_R_EXPR_GROUP_CLOSE': z3.Concat(ws, lit(')'))}
+    x = z3.String('x')
+    for name, SPEC in spec.items():
+        node = m.assigns.get(name)
+        oname = f'C02.token.{name}.is-exactly-the-grammar-token'
+        try:
+            pattern = ast.literal_eval(node.args[0])
+            if not pattern.startswith('^'):
+                raise Untranslatable('pattern is not anchored at the start of the remaining text')
+            CODE = to_re(pattern)
+        except Exception as e:
+            pr.add_obligation(oname, 'unknown', 'syntactic', 0.0, detail=f'{type(e).__name__}: {e}', function='parser.' + name)
+            continue
+        sv = z3.Solver()
+        sv.set('timeout', 20000)
+        sv.add(z3.InRe(x, CODE) != z3.InRe(x, SPEC))
+        t0 = time.time()
+        r = sv.check()
+        secs = time.time() - t0
+        if r == z3.unsat:
+            pr.add_obligation(oname, 'unsat', 'z3', secs, function='parser.' + name)
+        elif r == z3.sat:
+            tok = sv.model()[x].as_string()
+            in_code = z3.is_true(sv.model().eval(z3.InRe(x, CODE), model_completion=True))
+            text = TOKEN_EMBED[name] % tok
+            code = ('from bare_script.parser import parse_expression, BareScriptParserError\n'
+                    f'text = {text!r}\n'
+                    'try:\n    got = parse_expression(text)\n    accepted = True\n'
+                    'except BareScriptParserError as exc:\n    got = str(exc)\n    accepted = False\n'
+                    f'result = {{"violates": accepted == {in_code!r}, "text": text, "accepted": accepted, "observed": got}}\n')
+            res = run_witness(code)
+            pr.add_obligation(oname, 'sat', 'z3', secs, function='parser.' + name,
+                              detail=f'token text {tok!r} is {"accepted by the code but not a grammar token" if in_code else "a grammar token the code rejects"}',
+                              inputs={'text': text}, replay={'reproduced': bool(res.get('violates')), 'observed': res})
+        else:
+            pr.add_obligation(oname, 'unknown', 'z3', secs, detail=sv.reason_unknown(), function='parser.' + name)
+
+
 def run(tier):
     pr = PropertyRun('C02', tier)
     # (1) the precedence table, exhaustively: l in BINARY_REORDER[o]  <=>  rank(l) < rank(o)
@@ -83,6 +137,9 @@ def run(tier):
     ok_keys = set(tab) == set(OPS)
     pr.add_obligation('C02.table.keys-are-the-fourteen-operators', 'unsat' if ok_keys else 'sat', 'exhaustive', time.time() - t0,
                       detail=str(sorted(tab)))
+    # (1b) the punctuation tokens: each token regex denotes exactly the language the grammar gives it (all strings, z3 regex
+    #      theory) — a looser token silently re-interprets malformed text, a tighter one rejects well-formed text
+    token_language_obligations(pr, m)
     # (2) the step obligations on the real parser functions
     run_contracts_sel(pr, [PARSE_UNARY, PARSE_BINARY, PARSE_EXPRESSION], tier, 'C02')
     # (3) bounded stand-in for the composition of the steps into whole trees (never counted as proved)
